@@ -36,6 +36,24 @@ Theorem stale_never_missed_any_order : forall orc ds h s n s' v,
 Proof. exact read_fresh_any_order. Qed.
 Print Assumptions stale_never_missed_any_order.
 
+(* Processors that FAIL.  Data.Process() returns (value, error); nodes.Struct stores both, Value() serves the
+   value component whatever the error, and the error is never read back (State() is Stale or Processed,
+   Version() counts failed runs, Outdated() ignores it) — so [procfn] of the model is the value component
+   and every theorem here already quantifies over failing processors.  Made explicit: if the processors are
+   the value components [served p] of error-returning functions p (graph og), the value a read returns is
+   the value component of the from-scratch OUTCOME [eval_outcome] of the node, success or error alike,
+   whatever failed or succeeded earlier in the history, under every enumeration order.
+   Restriction (stated, not a gap of the proof): the stored error flag itself is not part of the model's
+   state because no method of the pinned/repaired code returns it. *)
+Theorem read_fresh_error_path : forall orc ds h s n s' v og,
+  oracle_ok orc ->
+  run orc (init ds) h = Some s ->
+  read orc s n = Some (s', v) ->
+  graph_of (nodes s) = map oerase og ->
+  exists failed, eval_outcome (fuel_of (nodes s)) og n = Some (v, failed).
+Proof. exact read_fresh_outcome. Qed.
+Print Assumptions read_fresh_error_path.
+
 (* Sentence 2, first half (stable order = the repaired code): once node n has executed (in step o,
    reaching s0'), it does not execute again during any continuation h2 none of whose operations sets
    a parameter in the dependency cone of n or re-wires a node of that cone (n itself included; cone
@@ -109,3 +127,16 @@ Example c11_example :
     read sorted_oracle s1 2 = Some (s2, 8%Z) /\ execs_of (nodes s2) 2 = 1 /\
     read sorted_oracle s2 2 = Some (s3, 8%Z) /\ execs_of (nodes s3) 2 = 1.
 Proof. exact sorted_witness. Qed.
+
+(* non-vacuity of the error path: parameter -> node 1 (fails iff its input is divisible by 3, returning -1
+   next to the error) -> node 2 (+100).  With the parameter at 3 node 1 fails and node 2 serves 99; after the
+   parameter is set to 4, reading node 2 WITHOUT reading node 1 first re-executes both and serves 104, the
+   from-scratch outcome. *)
+Example c11_failing_example :
+  exists s1 s2 s3,
+    run sorted_oracle (init failing_decls) [Connect 1 "In"%string 0; Connect 2 "In"%string 1] = Some s1 /\
+    read sorted_oracle s1 2 = Some (s2, 99%Z) /\ eval_outcome 4 (failing_og 3%Z) 1 = Some ((-1)%Z, true) /\
+    run sorted_oracle s2 [SetParam 0 4%Z] = Some s3 /\
+    (exists s4, read sorted_oracle s3 2 = Some (s4, 104%Z) /\ execs_of (nodes s4) 1 = 2 /\ execs_of (nodes s4) 2 = 2) /\
+    graph_of (nodes s3) = map oerase (failing_og 4%Z) /\ eval_outcome 4 (failing_og 4%Z) 2 = Some (104%Z, false).
+Proof. exact failing_witness. Qed.
